@@ -884,6 +884,13 @@ impl ASN1Value {
                 ASN1Type::ElsewhereDeclaredType(e),
                 ASN1Value::LinkedNestedValue { supertypes, value },
             ) => {
+                if supertypes.contains(&e.identifier) {
+                    return Err(grammar_error!(
+                        LinkerError,
+                        "Cyclic type reference linking value with '{}'",
+                        e.identifier
+                    ));
+                }
                 supertypes.push(e.identifier.clone());
                 if let ASN1Value::LinkedIntValue { integer_type, .. } = value.borrow_mut() {
                     let int_type = e.constraints.iter().fold(IntegerType::Unbounded, |acc, c| {
